@@ -37,7 +37,8 @@ S1e5 == {100000}
 \* call forms: the default one, and a covering set (every value of every argument form at least
 \* twice, most pairs of values at least once)
 Fm(c, n, s, p, a, k, m, d) == [set |-> TRUE, cont |-> c, naming |-> n, subst |-> s, psym |-> p, num |-> a,
-                               calls |-> k, modearg |-> m, allow |-> d]
+                               calls |-> k, modearg |-> m, allow |-> d,
+                               keys |-> IF (n = "reversed" /\ k = 1) \/ (n = "plain" /\ k = 2) THEN "reversed" ELSE "plain"]
 F_Default == {DefaultForm}
 F_Cover == {
     Fm("list", "plain", "map", "default", "int", 1, "plain", FALSE),
@@ -56,7 +57,8 @@ F_Cover == {
     Fm("tuple", "plain", "none", "default", "float", 2, "plain", FALSE),
     Fm("frozenset", "reversed", "map", "default", "explicit0", 1, "one", TRUE),
     Fm("set", "plain", "superset", "default", "explicit0", 1, "plain", FALSE) }
-F_Loose == {DefaultForm, [DefaultForm EXCEPT !.num = "explicit0"], [DefaultForm EXCEPT !.num = "float", !.cont = "set"]}
+F_Loose == {DefaultForm, [DefaultForm EXCEPT !.num = "explicit0", !.keys = "reversed"],
+            [DefaultForm EXCEPT !.num = "float", !.cont = "set"]}
 ASSUME \A f \in F_Cover \cup F_Loose : IsForm(f)
 Sh_Forms == {<<1, 2, 2>>, <<2, 1, 2>>, <<2, 2, 2>>}
 D_Both == {"none", "some"}
